@@ -54,6 +54,20 @@ def dump_plan(bdir, build, family, seed, extra=()):
     r = subprocess.run([os.path.join(bdir, 'simrun-' + build), '--family', family, '--seed', str(seed), '--dump-plan'] + list(extra), stdout=subprocess.PIPE, text=True, env=env)
     return json.loads(r.stdout)
 
+_pc_cache = {}
+def resolve_pc(bdir, build, res):
+    """crash reports carry the faulting pc; name the function (non-PIE binary, so the address is static)"""
+    m = re.search(r' pc=(0x[0-9a-f]+)', res.get('msg', ''))
+    if not m or 'crash_func' in res: return
+    key = (build, m.group(1))
+    if key not in _pc_cache:
+        try:
+            out = subprocess.run(['addr2line', '-f', '-e', os.path.join(bdir, 'simrun-' + build), m.group(1)], stdout=subprocess.PIPE, text=True, timeout=20).stdout.split('\n')
+            _pc_cache[key] = out[0].strip() or '??'
+        except Exception: _pc_cache[key] = '??'
+    res['crash_func'] = _pc_cache[key]
+    res['msg'] = res['msg'].replace(m.group(0), ' in %s()' % _pc_cache[key])
+
 def dump_plan_args(bdir, build, args):
     env = dict(os.environ); env['SIM_NO_REEXEC'] = '1'
     r = subprocess.run([os.path.join(bdir, 'simrun-' + build)] + [str(a) for a in args] + ['--dump-plan'], stdout=subprocess.PIPE, text=True, env=env)
@@ -225,9 +239,10 @@ def check_property(pid, tier, base_seed, out=sys.stdout, write_evidence=True, ex
     reported = []
     known_printed = set()
     classes = {}
-    for v in viol: classes.setdefault((v[3].get('oracle'), v[1]), []).append(v)
+    for v in viol: resolve_pc(bdir, v[1], v[3])
+    for v in viol: classes.setdefault((v[3].get('oracle'), v[1], v[3].get('crash_func', '')), []).append(v)
     os.makedirs(os.path.join(VERIF, 'replays'), exist_ok=True)
-    for (oracle, b), vs in sorted(classes.items(), key=lambda kv: str(kv[0])):
+    for (oracle, b, _cf), vs in sorted(classes.items(), key=lambda kv: str(kv[0])):
         fam, b, sd, r = vs[0]
         kn = match_known(known, pid, r)
         if r.get('_job') in replays: plan = dump_plan_args(bdir, b, replays[r['_job']])
@@ -254,6 +269,7 @@ def check_property(pid, tier, base_seed, out=sys.stdout, write_evidence=True, ex
         if not (fin.get('status') == 'violation' and fin.get('oracle') == oracle):
             json.dump({'property': pid, 'family': fam, 'build': b, 'seed': sd, 'plan': plan}, open(rp, 'w'), indent=0)
             code, fin = simrun(bdir, b, ['--replay', rp])
+        resolve_pc(bdir, b, fin)
         d = json.load(open(rp)); d['expected'] = {'oracle': fin.get('oracle'), 'msg': fin.get('msg'), 'event_hash': fin.get('event_hash'), 'prog': fin.get('prog'), 'op': fin.get('op'), 'op_name': fin.get('op_name')}
         d['minimisation'] = {'ops_before': sum(len(p['ops']) for p in plan['progs']), 'ops_after': sum(len(p['ops']) for p in small['progs']), 'reruns': mn.runs}
         json.dump(d, open(rp, 'w'), indent=0)
